@@ -267,7 +267,16 @@ func VerifH_C07_chain_key_usage() {
 	for j := 0; j < r; j++ {
 		req = append(req, pool[vr.Int("req", 1, len(pool)-1)])
 	}
+	reqBefore := append([]ExtKeyUsage{}, req...)
 	got := checkChainForKeyUsage(ch, req)
+	// Verify hands the same usage list to every candidate chain in turn, so the check
+	// must leave it as it found it (otherwise a later chain is judged against a
+	// different request than the caller made)
+	same := len(req) == len(reqBefore)
+	for i := range reqBefore {
+		same = same && req[i] == reqBefore[i]
+	}
+	vr.Assert(same, "the requested-usage list is not altered by checking a chain")
 	want := false
 	for _, u := range req {
 		all := n > 0
